@@ -19,12 +19,14 @@ SameCbs(want, got) ==
   /\ Len(want) = Len(got)
   /\ \A j \in 1..Len(want) : Cardinality({k \in 1..Len(got) : got[k].fn = want[j].fn /\ got[k].f = want[j].f /\ got[k].v = want[j].v}) = 1
 
-ReplyOK(want, got) ==
+Strict(want, got) ==
   /\ got.kind = want.kind
   /\ want.kind = "values" => got.vals = want.vals
   /\ want.kind = "panic" /\ want.names => got.names          \* the panic message names the method
   /\ want.kind = "failnow" => got.errorf > 0                 \* reported through Errorf before FailNow
   /\ SameCbs(want.cbs, got.cbs)
+
+ReplyOK(want, got) == Strict(want, got) \/ (want.lenient /\ got.kind = "panic" /\ got.cbs = << >>)
 
 Report(rec) == PrintT(<<"MISMATCH", ToJson(rec)>>) /\ TLCSet(1, TLCGet(1) + 1)
 
